@@ -553,6 +553,46 @@ def sc_diag_ops(rng, opts):
                 describe=dict(sym=sym, op=op, axis=axl, metafuse=metafuse, trans=(D.trans, a.trans), legD=str(D.get_legs()), legs_a=str(a.get_legs())))
 
 
+def _sc_remove_meta(rng, sym, cfg):
+    """remove_leg of ONE logical leg of dimension one that is a meta-fusion of 2-3 native legs carrying charges"""
+    r = rng.randint(0, 2)
+    k = rng.randint(2, 3)
+    la = [rleg(rng, cfg, sym) for _ in range(r)]
+    ones = []
+    for _ in range(k):
+        s1 = rng.choice([1, -1])
+        ones.append(yastn.Leg(cfg, s=s1, t=[rcharge(rng, sym)], D=[1]) if sym != 'dense' else yastn.Leg(cfg, s=s1, D=[1]))
+    pos = sorted(rng.sample(range(r + k), k))          # native positions of the unit legs
+    legs, it_a, it_o = [], iter(la), iter(ones)
+    for i in range(r + k):
+        legs.append(next(it_o) if i in pos else next(it_a))
+    a = rtensor(rng, cfg, legs, n=allowed_charge(rng, cfg, sym, legs), cplx=rng.random() < 0.3)
+    a, pa = lazy(rng, a)
+    lg = [legs[pa[i]] for i in range(a.ndim)]
+    unit = [i for i in range(a.ndim) if pa[i] in pos]      # leg i of the (lazily transposed) tensor is leg pa[i] of the stored one
+    rng.shuffle(unit)
+    rest = [i for i in range(a.ndim) if i not in unit]
+    where = rng.randint(0, len(rest))
+    axes = tuple(rest[:where]) + (tuple(unit),) + tuple(rest[where:])
+    inter = []
+
+    def fn():
+        f = a.fuse_legs(axes=axes, mode='meta')
+        inter.append(f)
+        return f.remove_leg(axis=where)
+
+    def oracle(c):
+        d = dense(a, dict(enumerate(lg)))
+        d2 = d.transpose(rest + unit).reshape([d.shape[i] for i in rest])
+        if sym != 'dense':
+            un = [ones[pos.index(pa[i])] for i in unit]
+            n2 = cfg.sym.add_charges(a.n, *[l.t[0] for l in un], signatures=(1,) + tuple(-l.s for l in un))
+        else:
+            n2 = a.n
+        return dict(dense=d2, legs={j: lg[i] for j, i in enumerate(rest)}, n=n2 if a.size > 0 else None)
+    return dict(fn=fn, oracle=oracle, operands=[a], intermediates=inter, describe=dict(sym=sym, op='remove_meta', axes=axes, where=where, trans=a.trans))
+
+
 def sc_legs(rng, opts):
     """add_leg / remove_leg"""
     sym, cfg = pick_cfg(rng, opts)
@@ -563,7 +603,9 @@ def sc_legs(rng, opts):
     axis = rng.randint(-(r + 1), r)
     s = rng.choice([1, -1])
     t = rcharge(rng, sym) if sym != 'dense' and rng.random() < 0.6 else None
-    op = rng.choice(['add', 'add_remove', 'add2'])
+    op = rng.choice(['add', 'add_remove', 'add2', 'remove_meta'])
+    if op == 'remove_meta':
+        return _sc_remove_meta(rng, sym, cfg)
 
     def fn():
         b = a.add_leg(axis=axis, s=s, t=t)
@@ -594,6 +636,68 @@ def sc_legs(rng, opts):
     return dict(fn=fn, oracle=oracle, operands=[a], describe=dict(sym=sym, op=op, axis=axis, s=s, t=t, trans=a.trans))
 
 
+def _sc_mixed_unfuse(rng, sym, cfg):
+    """hard fusion first, meta fusion on top; several hard-fused legs are unfused in ONE call while meta-fused legs stay fused in between"""
+    # logical legs of the final tensor: H = one hard-fused leg (2-3 native legs), M = meta-fusion of two hard-level legs, P = plain
+    while True:
+        kinds = [rng.choice('HHHMMP') for _ in range(rng.randint(2, 4))]
+        if rng.random() < 0.6:        # several hard-fused legs with a meta-fused one behind the first
+            kinds = ['H', 'M', 'H']
+            if rng.random() < 0.4:
+                kinds.insert(rng.randint(0, 3), rng.choice('HMP'))
+        sizes = []
+        for kd in kinds:
+            sizes.append([rng.randint(2, 3)] if kd == 'H' else ([rng.randint(1, 2), rng.randint(1, 2)] if kd == 'M' else [1]))
+        r = sum(sum(z) for z in sizes)
+        if r <= 7:
+            break
+    la = [rleg(rng, cfg, sym, maxD=2, nsec=rng.randint(1, 2)) for _ in range(r)]
+    a = rtensor(rng, cfg, la, n=allowed_charge(rng, cfg, sym, la), cplx=rng.random() < 0.3, drop=rng.choice([0, 0.3]))
+    a, pa = lazy(rng, a, p=0.4)
+    order = list(range(r)); rng.shuffle(order)
+    groups, mgroups, i = [], [], 0
+    for zs in sizes:
+        start = len(groups)
+        for k in zs:
+            g = tuple(order[i:i + k])
+            groups.append(g if k > 1 else g[0])
+            i += k
+        mgroups.append(tuple(range(start, start + len(zs))) if len(zs) > 1 else start)
+    hard_single = [q for q, mg in enumerate(mgroups) if not isinstance(mg, tuple) and isinstance(groups[mg], tuple)]   # logical legs that are one hard-fused leg
+    meta_legs = [q for q, mg in enumerate(mgroups) if isinstance(mg, tuple)]
+    qperm = list(range(len(mgroups))); rng.shuffle(qperm)
+    use_perm = rng.random() < 0.4
+    inter = []
+
+    def fn():
+        y = a.fuse_legs(axes=tuple(groups), mode='hard')
+        y = y.fuse_legs(axes=tuple(mgroups), mode='meta')
+        pos = {q: q for q in range(len(mgroups))}
+        if use_perm:
+            y = y.transpose(tuple(qperm))
+            pos = {q: i_ for i_, q in enumerate(qperm)}
+        ax = tuple(sorted(pos[q] for q in hard_single))
+        z = y.unfuse_legs(axes=ax) if ax else y            # ONE call for all hard-fused legs
+        inter.append(z)
+        # now unfuse what is still fused: meta legs, then the hard legs inside them
+        for _ in range(2):                                  # (plain legs are left alone by unfuse_legs)
+            z = z.unfuse_legs(axes=tuple(range(z.ndim)))
+        return z
+
+    def oracle(c):
+        lg = list(a.get_legs())
+        seq = qperm if use_perm else list(range(len(mgroups)))
+        flat = []
+        for q in seq:
+            mg = mgroups[q]
+            for gi in (mg if isinstance(mg, tuple) else (mg,)):
+                g = groups[gi]
+                flat += list(g) if isinstance(g, tuple) else [g]
+        return dict(dense=dense(a).transpose(flat), legs={k: lg[i_] for k, i_ in enumerate(flat)}, n=a.n)
+    return dict(fn=fn, oracle=oracle, operands=[a], intermediates=inter,
+                describe=dict(sym=sym, op='mixed_unfuse', groups=groups, mgroups=mgroups, perm=qperm if use_perm else None, trans=a.trans))
+
+
 def sc_fuse(rng, opts):
     """fuse (hard/meta, nested) ; unfuse restores; operations over fused legs equal operations over original legs"""
     sym, cfg = pick_cfg(rng, opts)
@@ -613,7 +717,9 @@ def sc_fuse(rng, opts):
     mode = opts.get('mode') or mode_r
     depth2 = rng.random() < 0.4 and len(groups) >= 2
     mode2 = rng.choice(['hard', 'meta'])
-    op = rng.choice(['roundtrip', 'norm', 'dense', 'dot', 'add', 'vdot', 'roundtrip_transposed', 'roundtrip_transposed', 'add_transposed', 'add_transposed', 'add3'])
+    op = rng.choice(['roundtrip', 'norm', 'dense', 'dot', 'add', 'vdot', 'roundtrip_transposed', 'roundtrip_transposed', 'add_transposed', 'add_transposed', 'add3', 'mixed_unfuse', 'mixed_unfuse'])
+    if op == 'mixed_unfuse' and not opts.get('mode'):
+        return _sc_mixed_unfuse(rng, sym, cfg)
     flat = [x for g in groups for x in (g if isinstance(g, tuple) else (g,))]
     qperm = list(range(len(groups))); rng.shuffle(qperm)
     consume_first = rng.random() < 0.3
@@ -1092,6 +1198,8 @@ def compare(res, exp, cfg_sym_zero=None):
         if exp.get('legs') is not None:
             rl = res.get_legs()
             rl = [rl] if isinstance(rl, yastn.Leg) else list(rl)
+            if exp['legs'] and max(exp['legs']) >= len(rl):
+                return 'result has %d legs, expected %d' % (len(rl), max(exp['legs']) + 1)
             for i, l in exp['legs'].items():
                 if rl[i].s != l.s:
                     return 'signature of result leg %d is %d, expected %d' % (i, rl[i].s, l.s)
